@@ -495,8 +495,28 @@ fn judge_history(history: &[&Vec<(String, String)>], sink: Option<&mut Sink>) ->
     }
     let after = run_under(&pipeline::files_of(last), vec![]).0;
     let again = run_under(&pipeline::files_of(last), vec![]).0;
+    // One loaded module set evaluated and emitted three times (what a long-lived process does
+    // when it keeps the loaded modules): the same bytes each time.
+    let reeval: Vec<String> = match guard(|| pipeline::load(&pipeline::files_of(last), "main.oal")) {
+        Ok(Ok(mods)) => (0..3)
+            .map(|_| match guard(|| pipeline::emit(&mods)) {
+                Ok(pipeline::EmitOutcome::Doc(d)) => d,
+                Ok(pipeline::EmitOutcome::EvalError(e)) => format!("<eval error {e}>"),
+                Err(p) => format!("<panic {}>", p.message),
+            })
+            .collect(),
+        _ => vec![],
+    };
     if let Some(s) = sink {
-        s.count("executions", before.len() as u64 + 3);
+        s.count("executions", before.len() as u64 + 3 + reeval.len() as u64);
+    }
+    if let Some(k) = reeval.iter().position(|d| *d != alone) {
+        return Outcome::bad(
+            "re-evaluation-dependent",
+            "output depends on earlier evaluations of the same loaded modules".into(),
+            format!("evaluation #{} of one loaded module set emits a document that differs from the stand-alone one", k + 1),
+            json!({"kind": "history", "programs": history.iter().map(|t| texts_json(t)["modules"].clone()).collect::<Vec<_>>()}),
+        );
     }
     if alone == after && after == again {
         Outcome::ok("same bytes after prior compilations", Some(hash_of(&(alone, before.len()))))
